@@ -307,6 +307,34 @@ func c02Witness(name string, w *World) *History {
 		s.block([][]byte{forge(txStake(self, oltAmt("10"), s.memo()), u1), forge(txUnstake(self, oltAmt("5"), s.memo()), u2)},
 			"stake self, slot 0 = victim u1's public key + junk", "unstake self, slot 0 = victim u2's public key + junk")
 		s.empty(1)
+	case "refused_credit_then_spend":
+		// a transaction refused in the FEE step after its handler already moved money (gas limit 1: "gas used exceed limit"),
+		// immediately followed by a transaction that spends, from the account the refused one had credited, more than it owns.
+		// A refused transaction leaves no trace (C06), so the second one must be refused too; then the symmetric order (the refused
+		// handler's last balance access was a DEBIT, the next transaction spends what the account really has: must be accepted)
+		p := w.Poor[0] // owns 0.002 OLT
+		s.empty(2)
+		GAS = 1
+		t1 := txSend(u0, p.Addr, oltAmt("100000000000000000000"), s.memo())
+		GAS = 1000000
+		s.block([][]byte{t1, txSend(p, u2.Addr, oltAmt("100000000000000000000"), s.memo())},
+			"send 100 OLT to a poor account, gas limit 1 (refused in the fee step)", "the poor account sends 100 OLT on")
+		GAS = 1
+		t2 := txSendPool(u0, "DelegationPool", oltAmt("70000000000000000000"), s.memo())
+		GAS = 1000000
+		s.block([][]byte{txDelegate(u1, oltAmt("50000000000000000000"), s.memo())}, "delegate 50 OLT")
+		s.block([][]byte{t2, txUndelegate(u1, oltAmt("1000000000000000000"), s.memo())},
+			"sendpool 70 OLT to the delegation pool, gas limit 1 (refused in the fee step)", "undelegate 1 OLT (debits the pool)")
+		GAS = 1
+		t3 := txPropCreate(u1, "wfee", governance.ProposalTypeGeneral, oltAmt("1000000000"), 30, 0, s.memo())
+		GAS = 1000000
+		s.block([][]byte{t3, txSend(u1, u2.Addr, oltAmt("999000000000000000000000"), s.memo())},
+			"proposal create, gas limit 1 (refused in the fee step after the proposer was debited)", "the proposer sends 999000 OLT (he owns more)")
+		GAS = 1
+		t4 := txSend(u0, u0.Addr, oltAmt("5"), s.memo())
+		GAS = 1000000
+		s.block([][]byte{t4, txSend(u0, u2.Addr, oltAmt("1"), s.memo())}, "send to self, gas limit 1 (refused)", "send 1")
+		s.empty(1)
 	case "two_finalized_in_one_block":
 		full := scenarioHistory("govupdate", w)
 		s.h.Blocks, s.h.Descr = full.Blocks[:7], full.Descr[:7]
@@ -456,7 +484,7 @@ func c02Main(args []string) int {
 			}
 		}
 		world := [3]int{3, 5, 2}
-		for _, name := range []string{"proposal_fund_negative", "two_finalized_in_one_block", "withdraw_funds_negative", "withdraw_reward_negative", "olvm_foreign_from", "double_unstake", "self_stake_foreign_slot0"} {
+		for _, name := range []string{"proposal_fund_negative", "two_finalized_in_one_block", "withdraw_funds_negative", "withdraw_reward_negative", "olvm_foreign_from", "double_unstake", "self_stake_foreign_slot0", "refused_credit_then_spend"} {
 			w := NewWorld(world[0], world[1], world[2])
 			c, p := c02RunHistory("witness_"+name, world, c02Witness(name, w))
 			cases = append(cases, c)
